@@ -60,7 +60,7 @@ func (c10) Gen(rng *rand.Rand, tier string, k int) *Case {
 			if rng.Intn(6) == 0 {
 				name = "Z"
 			}
-			c.Ops = append(c.Ops, OpSpec{Op: "get", Name: name})
+			c.Ops = append(c.Ops, OpSpec{Op: "get", Name: name, N: holdFlag(rng)})
 		case x < 8:
 			if rng.Intn(6) == 0 {
 				name = "Z"
@@ -69,7 +69,7 @@ func (c10) Gen(rng *rand.Rand, tier string, k int) *Case {
 			if rng.Intn(4) == 0 {
 				zone = []int{9, -5, 1, -11, 13}[rng.Intn(5)] // the same instant seen from another zone (callers pass time.Local)
 			}
-			c.Ops = append(c.Ops, OpSpec{Op: "getsince", Name: name, From: rng.Intn(next[name]+3) - 1, Half: rng.Intn(3) == 0, Zone: zone})
+			c.Ops = append(c.Ops, OpSpec{Op: "getsince", Name: name, From: rng.Intn(next[name]+3) - 1, Half: rng.Intn(3) == 0, Zone: zone, N: holdFlag(rng)})
 		case x < 9:
 			if rng.Intn(6) == 0 {
 				name = "Z"
@@ -97,9 +97,24 @@ func (c10) Gen(rng *rand.Rand, tier string, k int) *Case {
 	return c
 }
 
+// holdFlag: one read in four keeps its stream open across the next operation and is drained only
+// afterwards (a caller copying one asset into another, or looking something up while iterating).
+func holdFlag(rng *rand.Rand) int {
+	if rng.Intn(4) == 0 {
+		return 1
+	}
+	return 0
+}
+
 func (c10) Shrinks(c *Case) []*Case {
 	var out []*Case
 	for i := range c.Ops {
+		if (c.Ops[i].Op == "get" || c.Ops[i].Op == "getsince") && c.Ops[i].N == 1 {
+			d := *c
+			d.Ops = append([]OpSpec{}, c.Ops...)
+			d.Ops[i].N = 0
+			out = append(out, &d)
+		}
 		if len(c.Ops) > 1 {
 			d := *c
 			d.Ops = append(append([]OpSpec{}, c.Ops[:i]...), c.Ops[i+1:]...)
@@ -213,7 +228,7 @@ func (c10) Run(c *Case, st *Stats) []Violation {
 			collect := func(ch <-chan *asset.Snapshot) []*asset.Snapshot {
 				var got []*asset.Snapshot
 				for {
-					simrt.Yield(-1, "cons-recv")
+					consYield()
 					v, ok := <-ch
 					if !ok {
 						return got
@@ -233,6 +248,9 @@ func (c10) Run(c *Case, st *Stats) []Violation {
 				return true, ""
 			}
 			prev := "start"
+			var held <-chan *asset.Snapshot
+			var heldWant []*asset.Snapshot
+			heldAt := -1
 			for i, op := range c.Ops {
 				regime := prev + ">" + op.Op
 				known := appended[op.Name] || preexisting[op.Name]
@@ -329,6 +347,13 @@ func (c10) Run(c *Case, st *Stats) []Violation {
 						add("read-error", regime, fmt.Sprintf("op %d: %s(%s): %v", i, op.Op, op.Name, err))
 						return
 					}
+					if op.N == 1 && held == nil && i+1 < len(c.Ops) && !(c.Ops[i+1].Op == "append" && c.Ops[i+1].Name == op.Name) {
+						// keep the stream open across the next operation (what it shows of a later
+						// Append to the same asset is not specified, so that combination is left out)
+						held, heldWant, heldAt = ch, want, i
+						st.Faults["stream-held-open-across-the-next-operation"]++
+						break
+					}
 					got := collect(ch)
 					if ok, why := same(got, want); !ok {
 						kind := "read-differs-from-model"
@@ -394,6 +419,15 @@ func (c10) Run(c *Case, st *Stats) []Violation {
 					st.cell(c.Impl, regime, result, c.Policy.Name)
 				}
 				prev = op.Op
+				if held != nil && heldAt < i {
+					got := collect(held)
+					held = nil
+					if ok, why := same(got, heldWant); !ok {
+						add("read-differs-from-model", "held>"+op.Op, fmt.Sprintf("op %d %s(%s), drained after op %d: %s", heldAt, c.Ops[heldAt].Op, c.Ops[heldAt].Name, i, why))
+						return
+					}
+					st.Probes["held-streams-compared-with-model"]++
+				}
 			}
 		})
 	})
